@@ -1,1 +1,75 @@
-import Depccg.Tree
+/-
+  C18  Printing is an observation: it changes nothing and is repeatable.
+
+  In the model every renderer is a function from the parse results to text (or an error): there
+  is no state it could change.  What this file adds is the statement for *sequences* of
+  renderings over the same objects in the style of a state machine `Objs → Out × Objs`, so that
+  the shape of the claim matches the property; the real printers are tied to these functions by
+  the correspondence, and their freedom from side effects on the real objects (Python aliasing:
+  dict keys renamed in place, cached state) is what the C18 check observes directly.
+-/
+import Depccg.Print.More
+import Depccg.Print.Xml
+
+namespace Depccg.C18
+open Depccg Str Print
+
+/-- the output formats of the model -/
+inductive Fmt where
+  | auto | autoExt | conll | ptb | ja | deriv | prologEn | prologJa | xml | jigg (useSymbol : Bool) | json
+  deriving DecidableEq, Repr
+
+/-- what a rendering yields; XML / json documents are kept abstract -/
+inductive Out where
+  | text (s : Except Err Str)
+  | xml (d : List Xml.CcgElem)
+  | jigg (d : Except Err (List Xml.JSentence))
+  | json (d : List (List JTree))
+
+abbrev Objs := List (List (Tree × Str))      -- n-best lists of (tree, formatted score)
+
+def trees (o : Objs) : List (List Tree) := o.map (·.map (·.1))
+
+/-- one rendering: output and the objects afterwards -/
+def render (f : Fmt) (o : Objs) : Out × Objs :=
+  (match f with
+   | .auto => .text (toStringLines autoOf false o)
+   | .autoExt => .text (toStringLines autoExtOf false o)
+   | .conll => .text (toStringLines conllOf true o)
+   | .ptb => .text (toStringLines ptbOf false o)
+   | .ja => .text (toStringLines jaOf false o)
+   | .deriv => .text (toStringLines derivOf false o)
+   | .prologEn => .text (prologEn (trees o))
+   | .prologJa => .text (prologJa (trees o))
+   | .xml => .xml (Xml.xmlOf (trees o))
+   | .jigg u => .jigg (Xml.jiggOf u (trees o))
+   | .json => .json ((trees o).map (·.map jsonOf)),
+   o)
+
+/-- rendering leaves every tree, category and token exactly as it was -/
+theorem render_pure (f : Fmt) (o : Objs) : (render f o).2 = o := rfl
+
+/-- a sequence of renderings over the same objects -/
+def renderSeq : List Fmt → Objs → List Out × Objs
+  | [], o => ([], o)
+  | f :: fs, o =>
+    let (out, o1) := render f o
+    let (outs, o2) := renderSeq fs o1
+    (out :: outs, o2)
+
+/-- rendering the same results again, in the same or any other format and in any order of
+    formats, gives the same output as rendering a fresh copy; the objects are unchanged -/
+theorem any_sequence (fs : List Fmt) (o : Objs) :
+    (renderSeq fs o).1 = fs.map (fun f => (render f o).1) ∧ (renderSeq fs o).2 = o := by
+  induction fs with
+  | nil => exact ⟨rfl, rfl⟩
+  | cons f fs ih =>
+    simp only [renderSeq, render_pure, List.map_cons]
+    exact ⟨by rw [ih.1], ih.2⟩
+
+/-- in particular a format rendered after any prefix of other renderings gives its first output -/
+theorem repeatable (pre : List Fmt) (f : Fmt) (o : Objs) :
+    (render f (renderSeq pre o).2).1 = (render f o).1 := by
+  rw [(any_sequence pre o).2]
+
+end Depccg.C18
